@@ -249,7 +249,11 @@ where
         };
 
         tokio::spawn(async move {
-            let mut interval = tokio::time::interval(collector.batch_timeout / 4);
+            // tokio::time::interval panics on a zero period (a batch timeout below 4 ns, e.g. the zero
+            // timeout check_timeout supports): the checker task died at once and nothing was ever flushed
+            let period = collector.batch_timeout / 4;
+            let period = if period.is_zero() { Duration::from_millis(1) } else { period };
+            let mut interval = tokio::time::interval(period);
 
             loop {
                 interval.tick().await;
